@@ -457,6 +457,13 @@ class SpooledStringIO(SpooledIOBase):
     def readline(self, length=None):
         self._checkClosed()
         ret = self.buffer.readline(length).decode('utf-8')
+        # the codec reader also stops at '\r', '\x0b', ...; like io.StringIO,
+        # a line ends at '\n' only, so keep going until then
+        while length is None and ret and not ret.endswith('\n'):
+            more = self.buffer.readline().decode('utf-8')
+            if not more:
+                break
+            ret += more
         self._tell = self.tell() + len(ret)
         return ret
 
